@@ -7,7 +7,8 @@ func (r Ring) DivFloorByLastModulusNTT(p0, buff, p1 Poly) {
 
 	level := r.level
 
-	r.SubRings[level].INTTLazy(p0.Coeffs[level], buff.Coeffs[0])
+	// The last residue must be fully reduced: with a lazy representative in [q, 2q) the quotient is off by one
+	r.SubRings[level].INTT(p0.Coeffs[level], buff.Coeffs[0])
 
 	for i, s := range r.SubRings[:level] {
 		s.NTTLazy(buff.Coeffs[0], buff.Coeffs[1])
